@@ -41,6 +41,8 @@ def render_top(sysd):
             out += ["", "[ bonds ]"] + ["%d %d 1 %s %d" % (i, j, _fmt(l), FC["bonds"]) for i, j, l in mt["bonds"]]
         if mt.get("constraints"):
             out += ["", "[ constraints ]"] + ["%d %d 1 %s" % (i, j, _fmt(l)) for i, j, l in mt["constraints"]]
+        if mt.get("settles"):
+            out += ["", "[ settles ]"] + ["%d 1 %s %s" % (i, _fmt(doh), _fmt(dhh)) for i, doh, dhh in mt["settles"]]
         if mt.get("angles"):
             out += ["", "[ angles ]"] + ["%d %d %d 1 %s %d" % (i, j, k, _fmt(v), FC["angles"]) for i, j, k, v in mt["angles"]]
         if mt.get("impropers"):
@@ -264,6 +266,38 @@ def large_residue(rng, resname, sizes=(16, 17, 20, 24)):
     return {"resname": resname, "names": names, "atypes": ["P"] * n, "bonds": bonds, "constraints": [], "angles": [], "impropers": [], "vs": []}
 
 
+VS_ONLY_KINDS = [("virtual_sites2", "1", 2), ("virtual_sites3", "1", 3), ("virtual_sites3", "2", 3), ("virtual_sites3", "3", 3), ("virtual_sites3", "4", 3),
+                 ("virtual_sites4", "2", 4), ("virtual_sitesn", "1", 3), ("virtual_sitesn", "1", 1)]
+
+
+def vs_only_residue(rng, resname, kind=None):
+    """a residue with NO bond, constraint, angle or improper of its own: k real atoms (names Q1..) and one virtual site (W1) constructed
+    from all of them - every kind of construct_vs, incl. a site stacked on a single bead; three-atom residues sometimes carry a
+    [ settles ] line (rigid water).  The minimiser has nothing to do for it; the site must be constructed all the same."""
+    sec, func, k = VS_ONLY_KINDS[int(rng.integers(0, len(VS_ONLY_KINDS))) if kind is None else kind]
+    names = ["Q%d" % (i + 1) for i in range(k)]
+    frm = [names[i] for i in rng.permutation(k)]
+    if sec == "virtual_sites2":
+        params = ["1", round(float(rng.uniform(-0.5, 1.5)), 3)]
+    elif sec == "virtual_sitesn":
+        params = ["1"]
+    elif sec == "virtual_sites4":
+        params = ["2", round(float(rng.uniform(0.3, 1.2)), 3), round(float(rng.uniform(0.3, 1.2)), 3), round(float(rng.uniform(0.1, 0.3)), 3)]
+    elif func == "1":
+        params = ["1", round(float(rng.uniform(-0.3, 0.8)), 3), round(float(rng.uniform(-0.3, 0.8)), 3)]
+    elif func == "2":
+        params = ["2", round(float(rng.uniform(0.1, 0.9)), 3), round(float(rng.uniform(0.05, 0.3)), 3)]
+    elif func == "3":
+        params = ["3", float(rng.choice([60.0, 90.0, 120.0, 150.0])), round(float(rng.uniform(0.05, 0.3)), 3)]
+    else:
+        params = ["4", round(float(rng.uniform(-0.5, 0.8)), 3), round(float(rng.uniform(-0.5, 0.8)), 3), round(float(rng.uniform(-3, 3)), 3)]
+    res = {"resname": resname, "names": names + ["W1"], "atypes": ["P"] * k + ["VS"], "bonds": [], "constraints": [], "angles": [], "impropers": [],
+           "vs": [[sec, ["W1"] + frm, params]]}
+    if k == 3 and rng.random() < 0.5:
+        res["settles"] = [names[0], 0.1, 0.16]
+    return res
+
+
 def template_size(coords, radii, near=1e-9):
     """size of a residue from the template a molecule holds, written down independently of the code: the radius of gyration of the
     atoms pushed outwards from the centre of geometry by their own radius (sigma of the self-interaction); an atom on the centre
@@ -285,7 +319,7 @@ def template_size(coords, radii, near=1e-9):
 def molecule_from_residues(name, residues, tree_edges, rng=None):
     """moltype description from residue definitions (list, one per residue node, resid = index + 1) and residue-level edges
     [(r, s), ...] (0-based); each residue edge becomes one bond between a real (non virtual-site) atom of each side."""
-    atoms, bonds, cons, angles, imps, vs = [], [], [], [], [], []
+    atoms, bonds, cons, angles, imps, vs, settles = [], [], [], [], [], [], []
     first = []
     for r, res in enumerate(residues):
         first.append(len(atoms) + 1)
@@ -297,13 +331,15 @@ def molecule_from_residues(name, residues, tree_edges, rng=None):
         angles += [[idx[a], idx[b], idx[k], v] for a, b, k, v in res["angles"]]
         imps += [[idx[a], idx[b], idx[k], idx[l], v] for a, b, k, l, v in res["impropers"]]
         vs += [[sec, [idx[a] for a in at], list(params)] for sec, at, params in res["vs"]]
+        if res.get("settles"):
+            settles.append([idx[res["settles"][0]], res["settles"][1], res["settles"][2]])
     for r, s in tree_edges:
         def pick(q):
             real = [i for i, t in enumerate(residues[q]["atypes"]) if t != "VS"]
             k = real[int(rng.integers(0, len(real)))] if rng is not None else real[0]
             return first[q] + k
         bonds.append([pick(r), pick(s), 0.35])
-    return {"name": name, "atoms": atoms, "bonds": bonds, "constraints": cons, "angles": angles, "impropers": imps, "vs": vs}
+    return {"name": name, "atoms": atoms, "bonds": bonds, "constraints": cons, "angles": angles, "impropers": imps, "vs": vs, "settles": settles}
 
 
 ATOMTYPES = {"P": 0.3, "VS": 0.0}
